@@ -2797,7 +2797,21 @@ func NewValArg(in []byte) *SQLVal {
 func (node *SQLVal) Format(buf *TrackedBuffer) {
 	switch node.Type {
 	case StrVal:
-		sqltypes.MakeTrusted(sqltypes.VarBinary, node.Val).EncodeSQL(buf)
+		// Only the escapes that Tokenizer.scanString decodes (\', \\, \n) may be written;
+		// every other byte is legal inside the quotes as it is.
+		buf.WriteByte('\'')
+		for _, ch := range node.Val {
+			switch ch {
+			case '\'', '\\':
+				buf.WriteByte('\\')
+				buf.WriteByte(ch)
+			case '\n':
+				buf.WriteString("\\n")
+			default:
+				buf.WriteByte(ch)
+			}
+		}
+		buf.WriteByte('\'')
 	case IntVal, FloatVal, HexNum:
 		buf.Myprintf("%s", []byte(node.Val))
 	case HexVal:
